@@ -1129,16 +1129,11 @@ func runBoundedStop(c *Ctx) {
 					if id, ok := ast.Unparen(s.X).(*ast.Ident); ok && id.Name == "completedCount" && s.Tok == token.INC {
 						inc = r
 					}
-				case *ast.SendStmt:
-					if cl, ok := ast.Unparen(s.Value).(*ast.CompositeLit); ok {
-						for _, el := range cl.Elts {
-							if kv, ok := el.(*ast.KeyValueExpr); ok && types.ExprString(kv.Key) == "done" {
-								send = r
-							}
-						}
-					}
 				}
 			})
+			if qn := ackQueueNode(p, fin, "done"); qn != nil {
+				send = fcfg.Find(qn.Pos())
+			}
 			_ = fi
 			if !inc.Valid() || !send.Valid() {
 				c.Unknown("end/counted-before-ack", fin.Pos(), "cannot find completedCount++ / the FileDone enqueue in finalizeFile")
